@@ -18,7 +18,7 @@ import numpy as np
 from harness import common as C
 from harness import zoo as Z
 
-ANCHORS = ["T2", "T7ser"]
+ANCHORS = ["T2", "T7ser", "T7pipe"]
 MODELS = ["Serial"]
 RULE = ("(i) attribute values: None/bool/int/float/str/list/dict nestings of depth <= 3 plus the literal-looking strings "
         "'', '[m/s]', '{a}', 'True', 'None', '[1, 2]', 'abc', ...; at node level and at variable level of a DataTree; "
@@ -394,6 +394,9 @@ def make_input(struct, rng, cplx, red, n, fname):
         a = xr.DataArray(arr((n, 3)), dims=("time", fname), coords={"time": t, fname: [0, 1, 2]}, name="u")
         b = xr.DataArray(arr((n, 2)), dims=("time", fname + "b"), coords={"time": t, fname + "b": [5, 6]}, name="v")
         return [a, b]
+    if struct == "list12":
+        # more than ten list items (positions with two digits), each with its own mean and feature labels
+        return [xr.DataArray(arr((n, 2)) + 10.0 * j, dims=("time", fname), coords={"time": t, fname: [100 * j, 100 * j + 1]}, name="v%d" % j) for j in range(12)]
     if struct == "mi":
         assert n % 2 == 0
         mi = pd.MultiIndex.from_product([np.arange(n // 2), [1, 2]], names=("year", "month"))
@@ -804,7 +807,7 @@ def run_case(ctx, case, paths, moments):
 ALL_CLASSES = ["EOF", "ComplexEOF", "HilbertEOF", "ExtendedEOF", "SparsePCA", "POP", "OPA", "CPCCA", "MCA", "CCA", "RDA",
                "ComplexCPCCA", "ComplexMCA", "HilbertMCA"]
 ROTATABLE = ["EOF", "ComplexEOF", "HilbertEOF", "CPCCA", "MCA", "ComplexMCA", "HilbertMCA"]
-STRUCTS = ["da2", "da3", "ds", "list", "mi", "nan", "name=dim"]
+STRUCTS = ["da2", "da3", "ds", "list", "mi", "nan", "name=dim", "list12"]
 MOMENTS = ["fresh", "after-queries", "after-compute", "after-rotator-fit"]
 
 
